@@ -35,6 +35,7 @@ const (
 	sigLarger   = "C14/server-max-window-bits-larger-than-offer"
 	sigDupCMWB  = "C14/duplicate-valueless-client-max-window-bits"
 	sigNonDigit = "C14/window-bits-nondigit-or-overflow-accepted"
+	sigLeadZero = "C14/leading-zero-window-bits-accepted"
 )
 
 // ---------------------------------------------------------------------------
@@ -952,11 +953,11 @@ func shuffled(t *rapid.T, label string, ps []kv) []kv {
 	return perm
 }
 
-// badValues: every value outside the literal decimals 8..15. Leading-zero
-// spellings whose numeric value is outside 8..15 as well ("01", "07", "016")
-// are malformed under either reading; those with a value inside ("08", "015")
-// stay open.
-var badValues = []string{"1", "2", "3", "6", "17", "20", "80", "99", "100", "150", "01", "001", "00", "07", "016", "099", "1.", "7", "16", "0", "255", "8x", "x", ":", "1:", "99999999999999999999", "18446744073709551626",
+// badValues: every value that is not one of the literal decimals 8..15
+// (RFC 7692 §7.1.2.1/2: "a decimal integer value without leading zeroes
+// between 8 to 15"): out-of-range numbers, non-numbers, and leading-zero
+// spellings ("08", "09", "010", "015") — about a third of the table.
+var badValues = []string{"08", "09", "08", "09", "008", "009", "010", "011", "015", "0015", "0008", "00000000000000000010", "02", "000", "1", "2", "3", "6", "17", "20", "80", "99", "100", "150", "01", "001", "00", "07", "016", "099", "1.", "7", "16", "0", "255", "8x", "x", ":", "1:", "99999999999999999999", "18446744073709551626",
 	"18446744073709551631", "10000000000000000008", "-8", "+8", "8.0", "1e1", "0x8", "8 ", " 8", "1 0", "15,", ";", "<", "=", ">", "?", "1?", "9:"}
 
 // malformations builds permessage-deflate elements that §7.1 says must be
@@ -1304,17 +1305,6 @@ func TestMalformedTable(t *testing.T) {
 	}
 	hx.Part("malformed: enumerated unknown / duplicated / ill-valued parameter lists x 4 contexts", int64(n), true)
 
-	// Open: leading zeros, empty quoted value. Counted, not asserted.
-	for _, k := range []string{kSMWB, kCMWB} {
-		for _, v := range []string{"08", "09", "010", "015", "0015", "00000000000000000010"} {
-			var p wsflate.Parameters
-			if p.Parse(direct(ext{extName, []kv{{k, v}}})) == nil {
-				hx.Class("open/leading-zero-accepted")
-			} else {
-				hx.Class("open/leading-zero-rejected")
-			}
-		}
-	}
 }
 
 // pickOther returns a parameter name different from k, to put between duplicates.
@@ -2115,6 +2105,25 @@ func TestKnownFindings(t *testing.T) {
 		hx.Probe(t, sigNonDigit, "Parameters.Parse / Extension.Negotiate accept server_max_window_bits=18446744073709551626 (read as 10) and the quoted values \":\" .. \"?\" (read as 10..15) instead of returning an error; same for client_max_window_bits",
 			present, badCase{Offer: strings.Join(hit, " | ")})
 	}
+}
+
+// TestKnownFindingLeadingZero: "08" / "09" are not values "without leading
+// zeroes"; Parse and Negotiate must report an error for them.
+func TestKnownFindingLeadingZero(t *testing.T) {
+	present := false
+	var hit []string
+	for _, k := range []string{kSMWB, kCMWB} {
+		for _, v := range []string{"08", "09"} {
+			e := ext{extName, []kv{{k, v}}}
+			var p wsflate.Parameters
+			if p.Parse(mustText(e)) == nil {
+				present = true
+				hit = append(hit, fmt.Sprintf("%s -> %+v", render(e, 0), p))
+			}
+		}
+	}
+	hx.Probe(t, sigLeadZero, "Parameters.Parse / Extension.Negotiate accept window values with a leading zero (server_max_window_bits=08, client_max_window_bits=09) instead of returning an error",
+		present, badCase{Offer: strings.Join(hit, " | ")})
 }
 
 func mustText(e ext) httphead.Option {
